@@ -124,14 +124,15 @@ def gen_dur(rng):
     sign = "-" if rng.random() < 0.3 else ""
     if r < 0.86:
         return "%sP%dD" % (sign, rng.choice(
-            [rng.randint(1, 1000)] * 6 + [rng.randint(1000, 200000)] * 2 +
+            [rng.randint(1, 1000)] * 12 + [rng.randint(1000, 200000)] * 4 +
             # now and then beyond any block of millennia an implementation
-            # might treat specially (2800 years are 1.02 million days)
-            [rng.randint(10 ** 6, 2 * 10 ** 6)]))
+            # might treat specially (2800 years are 1.02 million days, ten
+            # millennia 3.66 million)
+            [rng.randint(10 ** 6, 5 * 10 ** 6)]))
     if r < 0.9:
         return "%sPT%dH" % (sign, rng.choice(
-            [rng.randint(1, 20000)] * 6 + [rng.randint(1, 4000000)] * 2 +
-            [rng.randint(24 * 10 ** 6, 4 * 10 ** 7)]))
+            [rng.randint(1, 20000)] * 12 + [rng.randint(1, 4000000)] * 4 +
+            [rng.randint(24 * 10 ** 6, 12 * 10 ** 7)]))
     if r < 0.94:
         return "%sP%dM" % (sign, rng.randint(1, 3000))
     if r < 0.97:
@@ -551,6 +552,7 @@ def directed_ops():
             ops.append(["add", p, d])
         if p.startswith(("2000-02", "2000-W")):
             ops.append(["add", p, "P1100000D"])       # beyond 2800 years
+            ops.append(["add", p, "P4000000D"])       # beyond ten millennia
         ops += [["reprs", p], ["props", p], ["epoch", p], ["tz", p, 13, 0],
                 ["dump", p, "CCYY-DDD"], ["dump", p, "CCYY-Www-D"],
                 ["dump", p, "%Y %j"], ["dump", p, "%s"],
@@ -616,8 +618,9 @@ def gen_directed(rng, index):
     variant = index // len(pairs)
     ops = list(directed_ops())
     if index % 6:
-        # (the 6000-addition sweep: in every sixth trace only)
-        ops = [o for o in ops if o[0] != "add_sweep"]
+        # (the 6000-addition sweep and the ten-millennia addition: in every
+        # sixth trace only)
+        ops = [o for o in ops if o[0] != "add_sweep" and "P4000000D" not in o]
     if variant:
         rng.shuffle(ops)
     paths = SWITCH_PATHS
